@@ -22,6 +22,10 @@ def type_key(t, classes):
     import typing
     if typing.get_origin(t) is typing.Union:
         return ["u", [type_key(a, classes) for a in typing.get_args(t)]]
+    if typing.get_origin(t) is list and len(typing.get_args(t)) == 1:
+        return ["l", type_key(typing.get_args(t)[0], classes)]
+    if typing.get_origin(t) is tuple and typing.get_args(t):
+        return ["t", [type_key(a, classes) for a in typing.get_args(t)]]
     import re
     return ["?", re.sub(r"geverif_grammar_\d+_\d+", "geverif_grammar", repr(t))[:80]]
 
